@@ -27,6 +27,7 @@ func init() {
 			ruleC10O6(r)
 			ruleDrainBounds(r, "O7")
 			ruleAlwaysCancels(r, "O8")
+			ruleNoAliasAfterTruncate(r, "O10", "/iscp", "/wire")
 			ruleCancelFieldsClosed(r, "O9", "/iscp", "/wire", "/transport/", "/transport")
 		},
 	})
